@@ -6,8 +6,11 @@ From Dashu Require Import Base.Prelude Base.Words Int.RingSpec Int.RingSign Int.
   Int.RingMul Int.RingMulProofs Int.RingKaraProofs Int.RingToomProofs Int.RingToomW Int.RingToomWProofs Int.RingDispatchProofs Int.RingSqrProofs
   Int.RingOps Int.RingOpsProofs Int.RingOpsMulProofs Int.RingPowProofs Int.RingTop Int.RingExamples
   Int.DivWordModel Int.DivWordProofs Int.RingMulW Int.RingMulWProofs Int.RingOpsW Int.RingOpsWProofs
-  Int.RingScratch Int.RingScratchProofs Int.RingPowW Int.RingPowWProofs Int.RingTopW Int.RingPrim Int.RingPrimProofs.
-From DashuGen Require Import SignTables Params MulMemory.
+  Int.RingScratch Int.RingScratchProofs Int.RingPowW Int.RingPowWProofs Int.RingTopW Int.RingPrim Int.RingPrimProofs
+  Int.WordPrims Int.WordKernelSpec Int.WordKernelRun Int.WordKernelsGenProofs Int.WordKernelSpecProofs Int.WordKernelRunProofs Int.WordKernelsGenTransfer
+  Int.RingOpsW4 Int.RingOpsW4Proofs.
+From Dashu Require Int.BitsKernels Int.ReprOrdModel.
+From DashuGen Require Import SignTables Params MulMemory WordKernelsGen.
 Open Scope Z_scope.
 
 (** ---- IBig sign tables (regenerated from add_ops.rs / mul_ops.rs on every run) *)
@@ -465,3 +468,183 @@ Theorem C01_ibig_prim : forall w, 8 <= w -> forall div2by1,
             srepr_value w r = ibig_prim_spec op a b /\ twf w (snd r).
 Proof. exact ibig_prim_exact. Qed.
 Print Assumptions C01_ibig_prim.
+
+(** ==== round 4: the LOOP KERNELS regenerated from the Rust source (tools/translate_c01_r4.py -> DashuGen.WordKernelsGen,
+    one Gallina fold / fixpoint per Rust loop) equal the hand-written models - for every word size w and EVERY input (the
+    equalities are between programs, no well-formedness needed).  An edited loop body breaks one of these. *)
+Theorem C01_gen_math_rs : forall w a b c d,
+  mul_add_carry_gen w a b c = mul_add_carry w a b c /\ mul_add_2carry_gen w a b c d = mul_add_2carry w a b c d /\
+  mul_add_carry_dword_gen w a b c = mul_add_carry_dword w a b c.
+Proof. intros. repeat split. Qed.
+Print Assumptions C01_gen_math_rs.
+
+Theorem C01_gen_add_one_word_dword : forall w ws x,
+  add_one_in_place_gen w ws = add_one_in_place w ws /\ sub_one_in_place_gen w ws = sub_one_in_place w ws /\
+  add_word_in_place_gen w ws x = add_word_in_place w ws x /\ sub_word_in_place_gen w ws x = sub_word_in_place w ws x /\
+  add_dword_in_place_gen w ws x = add_dword_in_place w ws x /\ sub_dword_in_place_gen w ws x = sub_dword_in_place w ws x.
+Proof.
+  intros. exact (conj (add_one_in_place_gen_eq w ws) (conj (sub_one_in_place_gen_eq w ws) (conj (add_word_in_place_gen_eq w ws x)
+    (conj (sub_word_in_place_gen_eq w ws x) (conj (add_dword_in_place_gen_eq w ws x) (sub_dword_in_place_gen_eq w ws x)))))).
+Qed.
+Print Assumptions C01_gen_add_one_word_dword.
+
+Theorem C01_gen_same_len_loops : forall w lhs rhs,
+  add_same_len_in_place_gen w lhs rhs = add_same_len_in_place w lhs rhs /\
+  sub_same_len_in_place_gen w lhs rhs = sub_same_len_in_place w lhs rhs /\
+  sub_same_len_in_place_swap_gen w lhs rhs = sub_same_len_in_place_swap w lhs rhs.
+Proof.
+  intros. exact (conj (add_same_len_in_place_gen_eq w lhs rhs) (conj (sub_same_len_in_place_gen_eq w lhs rhs)
+    (sub_same_len_in_place_swap_gen_eq w lhs rhs))).
+Qed.
+Print Assumptions C01_gen_same_len_loops.
+
+Theorem C01_gen_add_sub_in_place : forall w lhs rhs,
+  add_in_place_gen w lhs rhs = add_in_place w lhs rhs /\ sub_in_place_gen w lhs rhs = sub_in_place w lhs rhs.
+Proof. intros. exact (conj (add_in_place_gen_eq w lhs rhs) (sub_in_place_gen_eq w lhs rhs)). Qed.
+Print Assumptions C01_gen_add_sub_in_place.
+
+(** the three `while` loops (fuel = counter + 1) of sub_in_place_with_sign never run out of fuel and return what the model does *)
+Theorem C01_gen_sub_in_place_with_sign : forall w lhs rhs,
+  sub_in_place_with_sign_gen w lhs rhs = sub_in_place_with_sign w lhs rhs.
+Proof. exact sub_in_place_with_sign_gen_eq. Qed.
+Print Assumptions C01_gen_sub_in_place_with_sign.
+
+Theorem C01_gen_signed_forms : forall w ws s rhs x,
+  add_signed_word_in_place_gen w ws x = add_signed_word_in_place w ws x /\
+  add_signed_same_len_in_place_gen w ws s rhs = add_signed_same_len_in_place w ws s rhs /\
+  add_signed_in_place_gen w ws s rhs = add_signed_in_place w ws s rhs.
+Proof.
+  intros. exact (conj (add_signed_word_in_place_gen_eq w ws x) (conj (add_signed_same_len_in_place_gen_eq w ws s rhs)
+    (add_signed_in_place_gen_eq w ws s rhs))).
+Qed.
+Print Assumptions C01_gen_signed_forms.
+
+Theorem C01_gen_mul_word_dword : forall w ws x carry,
+  mul_word_in_place_with_carry_gen w ws x carry = mul_word_in_place_with_carry w ws x carry /\
+  mul_word_in_place_gen w ws x = mul_word_in_place w ws x /\ mul_dword_in_place_gen w ws x = mul_dword_in_place w ws x.
+Proof.
+  intros. exact (conj (mul_word_in_place_with_carry_gen_eq w ws x carry) (conj (mul_word_in_place_gen_eq w ws x)
+    (mul_dword_in_place_gen_eq w ws x))).
+Qed.
+Print Assumptions C01_gen_mul_word_dword.
+
+Theorem C01_gen_add_sub_mul_word : forall w ws mult rhs,
+  add_mul_word_same_len_in_place_gen w ws mult rhs = add_mul_word_same_len_in_place w ws mult rhs /\
+  sub_mul_word_same_len_in_place_gen w ws mult rhs = sub_mul_word_same_len_in_place w ws mult rhs.
+Proof. intros. exact (conj (add_mul_word_same_len_in_place_gen_eq w ws mult rhs) (sub_mul_word_same_len_in_place_gen_eq w ws mult rhs)). Qed.
+Print Assumptions C01_gen_add_sub_mul_word.
+
+(** mul/simple.rs: the rows index into c (`c[i..i + a.len()]`); they equal the peeling model whenever they stay inside c *)
+Theorem C01_gen_schoolbook_rows : forall w c s a b, (length a + length b <= length c)%nat ->
+  add_mul_chunk_gen w c a b = add_mul_chunk w c a b false /\ sub_mul_chunk_gen w c a b = sub_mul_chunk w c a b false /\
+  add_signed_mul_chunk_gen w c s a b = add_signed_mul_chunk w c s a b.
+Proof.
+  intros w c s a b H. exact (conj (add_mul_chunk_gen_eq w c a b H) (conj (sub_mul_chunk_gen_eq w c a b H) (add_signed_mul_chunk_gen_eq w c s a b H))).
+Qed.
+Print Assumptions C01_gen_schoolbook_rows.
+Example C01_gen_schoolbook_rows_nonvacuous :
+  (length [3; 4] + length [5] <= length [1; 2; 0])%nat /\ add_mul_chunk_gen 8 [1; 2; 0] [3; 4] [5] = ([16; 22; 0], false).
+Proof. split; [cbn; lia | reflexivity]. Qed.
+
+(** the dispatcher the correspondence run evaluates (op wk, kernels 0..19) *)
+Theorem C01_gen_word_kernel_dispatch : forall w which lhs rhs x sx,
+  word_kernel_gen w which lhs rhs x sx = word_kernel_hand w which lhs rhs x sx.
+Proof. exact word_kernel_gen_eq. Qed.
+Print Assumptions C01_gen_word_kernel_dispatch.
+
+(** value contracts, now about the REGENERATED functions *)
+Theorem C01_gen_add_in_place_contract : forall w, 0 < w -> forall lhs rhs, (length rhs <= length lhs)%nat -> wf w lhs -> wf w rhs ->
+  forall r c, add_in_place_gen w lhs rhs = (r, c) ->
+  length r = length lhs /\ wf w r /\ value w r + b2z c * B w ^ len lhs = value w lhs + value w rhs.
+Proof. exact gen_add_in_place_contract. Qed.
+Print Assumptions C01_gen_add_in_place_contract.
+
+Theorem C01_gen_sub_in_place_contract : forall w, 0 < w -> forall lhs rhs, (length rhs <= length lhs)%nat -> wf w lhs -> wf w rhs ->
+  forall r c, sub_in_place_gen w lhs rhs = (r, c) ->
+  length r = length lhs /\ wf w r /\ value w r + - b2z c * B w ^ len lhs = value w lhs + - value w rhs.
+Proof. exact gen_sub_in_place_contract. Qed.
+Print Assumptions C01_gen_sub_in_place_contract.
+
+Theorem C01_gen_sub_in_place_with_sign_contract : forall w, 0 < w -> forall lhs rhs, (length rhs <= length lhs)%nat -> wf w lhs -> wf w rhs ->
+  forall r s, sub_in_place_with_sign_gen w lhs rhs = (r, s) ->
+  length r = length lhs /\ wf w r /\ signed s (value w r) = value w lhs - value w rhs.
+Proof. exact gen_sub_in_place_with_sign_contract. Qed.
+Print Assumptions C01_gen_sub_in_place_with_sign_contract.
+
+Theorem C01_gen_mul_word_in_place_contract : forall w, 8 <= w -> forall ws rhs, wf w ws -> 0 < rhs < B w ->
+  forall r c, mul_word_in_place_gen w ws rhs = (r, c) ->
+  length r = length ws /\ wf w r /\ 0 <= c < B w /\ value w r + c * B w ^ len ws = value w ws * rhs.
+Proof. exact gen_mul_word_in_place_contract. Qed.
+Print Assumptions C01_gen_mul_word_in_place_contract.
+
+Theorem C01_gen_mul_dword_in_place_contract : forall w, 8 <= w -> forall ws rhs, wf w ws -> 0 <= rhs < B w * B w ->
+  forall r c, mul_dword_in_place_gen w ws rhs = (r, c) ->
+  length r = length ws /\ wf w r /\ 0 <= c < B w * B w /\ value w r + c * B w ^ len ws = value w ws * rhs.
+Proof. exact gen_mul_dword_in_place_contract. Qed.
+Print Assumptions C01_gen_mul_dword_in_place_contract.
+
+Theorem C01_gen_schoolbook_contract : forall w, 8 <= w -> forall c s a b,
+  wf w c /\ wf w a /\ wf w b /\ length c = (length a + length b)%nat ->
+  exists r carry, add_signed_mul_chunk_gen w c s a b = (r, carry) /\ length r = length c /\ wf w r /\
+    value w r + carry * B w ^ len c = value w c + sgnz s * (value w a * value w b).
+Proof. exact gen_schoolbook_contract. Qed.
+Print Assumptions C01_gen_schoolbook_contract.
+Example C01_gen_contracts_nonvacuous :
+  wf 8 [255; 255; 1] /\ wf 8 [1] /\ add_in_place_gen 8 [255; 255; 1] [1] = ([0; 0; 2], false) /\
+  sub_in_place_with_sign_gen 8 [1; 0; 0] [2; 0] = ([1; 0; 0], Negative) /\ mul_dword_in_place_gen 8 [255; 255; 255] 65535 = ([1; 0; 255], 65534).
+Proof. repeat split; try reflexivity; repeat constructor; cbn; lia. Qed.
+
+(** every kernel the run drives (op wk): the REGENERATED function meets the integer specification the oracle judges with
+    (result = r mod B^n, returned carry / borrow = |r div B^n| with its sign), inside the contract boundary word_kernel_pre *)
+Theorem C01_gen_word_kernels_meet_spec : forall w, 8 <= w -> forall which lhs rhs x sx, 0 <= which <= 19 -> which <> 11 ->
+  word_kernel_pre w which lhs rhs x sx ->
+  let '(l, (m, neg)) := word_kernel_gen w which lhs rhs x sx in
+  length l = length lhs /\ wf w l /\
+  (value w l, m, neg) = word_kernel_spec w which (len lhs) (value w lhs) (value w rhs) x sx.
+Proof. exact word_kernel_gen_meets_spec. Qed.
+Print Assumptions C01_gen_word_kernels_meet_spec.
+
+Theorem C01_gen_word_kernel_with_sign : forall w, 8 <= w -> forall lhs rhs x sx, word_kernel_pre w 11 lhs rhs x sx ->
+  let '(l, (m, neg)) := word_kernel_gen w 11 lhs rhs x sx in
+  length l = length lhs /\ wf w l /\ m = 0 /\ (if neg then - value w l else value w l) = value w lhs - value w rhs.
+Proof. exact word_kernel_gen_with_sign. Qed.
+Print Assumptions C01_gen_word_kernel_with_sign.
+Example C01_gen_word_kernels_nonvacuous :
+  word_kernel_pre 8 19 [1; 0] [2; 3] 200 0 /\ word_kernel_gen 8 19 [1; 0] [2; 3] 200 0 = ([113; 166], (3, false)) /\
+  word_kernel_spec 8 19 2 1 770 200 0 = (113 + 256 * 166, 3, false) /\ word_kernel_pre 8 11 [1; 0] [2] 0 0.
+Proof. repeat split; try reflexivity; repeat constructor; cbn; lia. Qed.
+
+(** ==== round 4: the Small x Large arms of mul_ops.rs at word level *)
+(** shift::shl_in_place regenerated from shift.rs = the word-level model of C09, all inputs *)
+Theorem C01_gen_shl_in_place : forall w ws s, shl_in_place_gen w ws s = BitsKernels.shl_in_place w ws s.
+Proof. exact shl_in_place_gen_eq. Qed.
+Print Assumptions C01_gen_shl_in_place.
+
+(** ... and that word-level shift is the by-value shift the round-3 model of mul_large_dword used *)
+Theorem C01_shl_in_place_word_level : forall w, 8 <= w -> forall ws k, wf w ws -> 0 <= k < w ->
+  BitsKernels.shl_in_place w ws k = RingOps.shl_in_place w ws k.
+Proof. exact shl_in_place_word_level. Qed.
+Print Assumptions C01_shl_in_place_word_level.
+
+Theorem C01_mul_large_dword_word_level : forall w, 8 <= w -> forall buffer rhs, wf w buffer -> 0 <= rhs < B w * B w ->
+  mul_large_dword_w w buffer rhs = mul_large_dword w buffer rhs.
+Proof. exact mul_large_dword_w_eq. Qed.
+Print Assumptions C01_mul_large_dword_word_level.
+
+(** the `x * x` square shortcut of mul_large: cmp::cmp_in_place (C05's word-level model) is Equal exactly for equal word lists *)
+Theorem C01_square_shortcut_cmp_in_place : forall a b,
+  list_eqb a b = match ReprOrdModel.cmp_in_place a b with Eq => true | _ => false end.
+Proof. exact cmp_in_place_is_eq. Qed.
+Print Assumptions C01_square_shortcut_cmp_in_place.
+
+Theorem C01_ubig_mul_word_level_r4 : forall w, 8 <= w -> forall div2by1,
+  (forall d a, norm1 w d -> 0 <= a < d * B w -> div2by1 d a = (a / d, a mod d)) ->
+  forall x y, tok w x -> tok w y ->
+  exists r, repr_mul_w4 w div2by1 src_T_simple src_T_kara src_CHUNK src_SQR x y = Ok r /\
+    Ok (repr_value w r) = ubig_mul_spec (repr_value w x) (repr_value w y) /\ twf w r.
+Proof. exact ubig_mul_w4_exact. Qed.
+Print Assumptions C01_ubig_mul_word_level_r4.
+Example C01_mul_large_dword_nonvacuous :
+  wf 8 [255; 1; 7] /\ mul_large_dword_w 8 [255; 1; 7] 16 = Large [240; 31; 112] /\ mul_large_dword_w 8 [255; 255; 255] 128 = Large [128; 255; 255; 127] /\
+  mul_large_dword_w 8 [255; 255; 255] 65535 = Large [1; 0; 255; 254; 255].
+Proof. repeat split; try reflexivity; repeat constructor; cbn; lia. Qed.
